@@ -40,7 +40,7 @@ Available_ == (Judged /\ Polled /\ ~cur.locked) => \A p \in 1..cur.refN : p > Le
 SizeBig_ == (Judged /\ ~cur.locked) => (cur.size <= cur.refN /\ cur.sizeRem = 0)
 SizeSmall_ == (Judged /\ ~cur.locked) => cur.size >= cur.refN
 \* a time-travel view (SetTargetTime) is the timestamp restore for that time
-TimeTravelView_ == (Judged /\ cur.tt # 0) =>
+TimeTravelView_ == (Judged /\ cur.op = "TT" /\ cur.res = "ok") =>
   (cur.size = cur.refN /\ \A p \in 1..cur.refN : p <= Len(cur.pg) /\ cur.pg[p] = cur.ref[p])
 
 \* ---- shapes of the known findings, over the observed history of this trace
